@@ -338,8 +338,95 @@ def run_impl(ctx, cases):
         raise RuntimeError("drv_funcs failed: " + p.stderr.decode(errors="replace")[-2000:])
     d = json.loads(p.stdout)
     outs = [norm_out(o) for o in d["outs"]]
-    refs = [norm_out(o) if o else None for o in d["refs"]]
+    refs = [norm_out(o) if o else None for o in d["refs"] or []]
     return outs, refs, d["utab"]
+
+
+HIST_FIXED = [
+    ("readFile", [S(b"nope")]), ("readFile", [S(b"d/nope")]), ("readFile", [S(b"partial.txt")]), ("readFile", [S(b"f.txt")]),
+    ("readFile", [S(b"d/g")]), ("readFile", [S(b"")]), ("readFile", [S(b"d")]), ("readFile", [S(b"./nope")]), ("readFile", [S(b"../nope")]),
+    ("getenv", [S(b"A")]), ("getenv", [S(b"nope")]), ("expandEnv", [S(b"$A ${AB} $nope")]), ("base", [S(b"a/b")]), ("dir", [S(b"a/b")]),
+    ("clean", [S(b"a/../b")]), ("exported", [S(b"name")]), ("firstIsLower", [S(b"")]), ("split", [S(b","), S(b"a,b")]),
+    ("snakecase", [S(b"SomeName")]), ("add", [I(1), I(2)]), ("min", []), ("div", [I(1), I(0)]),
+]
+
+
+def hist_sample(rng, n):
+    cs = [{"fn": f, "pipe": False, "args": a} for f, a in HIST_FIXED]
+    fns = sorted(FN) + ["snakecase", "kebabcase", "matchString", "ceil", "floor", "round", "randInt"]
+    for i in range(n):
+        cs.append(gen_case(rng, "readFile" if i % 4 == 0 else rng.choice(fns)))
+    return cs
+
+
+def decoys_for(sample):
+    """files placed next to the file:// templates, named like the readFile arguments of the sample"""
+    d = {"partial.txt": b"DECOY:partial.txt"}
+    for c in sample:
+        if c["fn"] == "readFile" and c["args"] and c["args"][0][0] == "s":
+            p = c["args"][0][1]
+            try:
+                name = p.decode("utf-8")
+            except UnicodeDecodeError:
+                continue
+            if name and not name.startswith("/") and "\x00" not in name and ".." not in name.split("/") and name not in DIRS and not name.endswith("/"):
+                d[name.lstrip("./") or "x"] = b"DECOY:" + p
+    return {k: v for k, v in d.items() if not any(k2 != k and k2.startswith(k + "/") for k2 in d)}
+
+
+def run_history(ctx, sample, templates=2):
+    inp = {"env": {k: hx(v) for k, v in ENV.items()}, "files": {k: hx(v) for k, v in FILES.items()}, "dirs": DIRS, "cases": [],
+           "hist": {"sample": [impl_case(c) for c in sample], "decoys": {k: hx(v) for k, v in decoys_for(sample).items()}, "templates": templates}}
+    p = run([ctx.bins["drv_funcs"]], inp=json.dumps(inp).encode(), timeout=900)
+    if p.returncode != 0:
+        raise RuntimeError("drv_funcs (history mode) failed: " + p.stderr.decode(errors="replace")[-2000:])
+    d = json.loads(p.stdout)
+    h = d["hist"]
+    return {"before": [norm_out(o) for o in h["before"]], "after": [norm_out(o) for o in h["after"]],
+            "emb_before": h["emb_before"], "emb_after": h["emb_after"], "keys_diff": h.get("keys_diff") or [], "log": h.get("log") or [], "utab": d["utab"]}
+
+
+def stable(o):
+    """projection compared across the history: error texts and random numbers are not compared"""
+    return (o[0],) if o[0] in ("err", "panic") else o
+
+
+def check_history(ctx, sample):
+    """the function map is process-wide: results of a fixed sample must be the same before and after mockery's own
+    uses of the library (config-value rendering, file:// templates created with template.New next to decoy files),
+    and the results AFTER must still be the documented ones (same oracles and model as the main stream)."""
+    h = run_history(ctx, sample)
+    diffs = []
+    for i, c in enumerate(sample):
+        b, a = h["before"][i], h["after"][i]
+        if c["fn"] == "randInt":
+            b, a = (b[0],), (a[0],)
+        if stable(b) != stable(a):
+            diffs.append((i, "through FuncMap", h["before"][i], h["after"][i]))
+        elif h["emb_before"][i] != h["emb_after"][i]:
+            eb, ea = h["emb_before"][i], h["emb_after"][i]
+            dec = lambda x: x if x in ("-", "ERR", "ERR parse") or x.startswith("CRASH") else bytes.fromhex(x)
+            diffs.append((i, "in a fresh embedded template (template.New)", ("rendered", dec(eb)), ("rendered", dec(ea))))
+    reported = 0
+    for i, how, b, a in diffs:
+        if reported >= 3:
+            break
+        reported += 1
+        c = sample[i]
+        exp = reference(c, Utab(h["utab"]))
+        rp = ctx.write_replay("history-%s-%d" % (c["fn"], i), {
+            "what": ["the result of %s changed after file:// templates were created with mockery's template.New in a directory holding decoy files (%s): before %r, after %r" % (describe(c)["call"], how, b, a),
+                     "the function map is shared by every template and config value of the run: the later results are the ones templates see"],
+            "history": True, "case": to_json(c), "readable": describe(c, a, exp), "before": "%s %r" % (b[0], b[1] if len(b) > 1 else None),
+            "decoys": sorted(decoys_for(sample)), "driver_log": h["log"], "differences": len(diffs)})
+        ctx.violation(rp)
+    if h["keys_diff"] and not diffs:
+        rp = ctx.write_replay("history-keys", {"what": "the key set of FuncMap changed during the run: %s" % h["keys_diff"], "history": True,
+                                               "obligation": "purity of the function table (C16_call_independent_of_history)", "driver_log": h["log"]})
+        ctx.violation(rp, nofail=True)
+    # the results after the history are judged like any other application
+    _, _, _, fails, bad, errs = judge(ctx, sample, h["after"], [None] * len(sample), h["utab"])
+    return h, diffs, fails, bad, errs
 
 
 # ---------------------------------------------------------------- reference semantics (the oracle)
@@ -655,6 +742,10 @@ def shrink(ctx, c, fails):
 def evaluate(ctx, cases):
     """run implementation + oracles + model on the cases"""
     outs, refs, utab = run_impl(ctx, cases)
+    return judge(ctx, cases, outs, refs, utab)
+
+
+def judge(ctx, cases, outs, refs, utab):
     U = Utab(utab)
     by_key = {(c["fn"], c["args"][0][1]): o for c, o in zip(cases, outs) if c["fn"] in ("snakecase", "kebabcase") and c["args"]}
     fails = {}
@@ -688,7 +779,7 @@ def known_camel(c, o):
     return bool(cs) and not has_word(s) and o == ("str", s + cs[-1])
 
 
-def check(ctx, only=None):
+def check(ctx, only=None, hist_cases=None):
     gate = proof_gate(ctx)
     if not ctx.build_tree(drivers=["drv_funcs"]):
         ctx.write_evidence(gate, 0, 0, "build failed", [])
@@ -719,6 +810,20 @@ def check(ctx, only=None):
         if keys != sorted(ALL_FUNCS):
             notes.append("FuncMap keys changed: added %s, removed %s" % (sorted(set(keys) - set(ALL_FUNCS)), sorted(set(ALL_FUNCS) - set(keys))))
     outs, refs, utab, fails, bad, errs = evaluate(ctx, cases)
+    # history stream: the same sample before and after mockery's own uses of the (process-wide) function map
+    hres = None
+    if hist_cases is not None or only is None:
+        sample = hist_cases if hist_cases is not None else hist_sample(ctx.rng, 1500 if ctx.thorough() else 150)
+        hres, hdiffs, hfails, hbad, herrs = check_history(ctx, sample)
+        if not hdiffs:
+            for i in sorted(hfails)[:2]:
+                rp = ctx.write_replay("history-oracle-%s-%d" % (sample[i]["fn"], i), {
+                    "what": hfails[i][0], "history": True, "case": to_json(sample[i]), "readable": describe(sample[i], hres["after"][i], hfails[i][1]),
+                    "note": "observed after file:// templates were created in the same process; the same result was observed before"})
+                ctx.violation(rp)
+            if (hbad or herrs) and not hfails:
+                notes.append("history stream: model and implementation disagree on %d applications evaluated after the history, e.g. %s; %s" % (
+                    len(hbad), [describe(sample[i], hres["after"][i]) for i in hbad[:3]], herrs))
     # known-finding classification (main stream stays outside the class; replayed inputs may be inside)
     for i in list(fails):
         if known_camel(cases[i], outs[i]) and "C16-camelcase-connectors-only" in known:
@@ -793,13 +898,16 @@ def check(ctx, only=None):
         if o[0] in ("int", "float"): return len(c["args"]) > 1 or c["fn"] in ("incr", "decr")
         return all(not (t == "s" and ((o[0] == "str" and v == o[1]) or (o[0] == "list" and o[1] == [v]))) for t, v in c["args"])
     distinct = len({json.dumps(to_json(c), sort_keys=True) for c, o in zip(cases, outs) if nontrivial(c, o)})
-    ctx.write_evidence(gate, len(cases) + len(witness), distinct,
+    ctx.write_evidence(gate, len(cases) + len(witness) + (2 * len(hres["before"]) if hres else 0), distinct,
                        "seeded applications of every FuncMap entry (corpus and documented examples first), arguments biased to boundaries (empty, separator at the ends/repeated/overlapping, multi-byte, invalid UTF-8, counts <0/0/1/MaxInt64, MinInt64, +-1), half of them in pipeline form, plus ill-typed calls; non-trivial = the result is a value that is not simply one of the string arguments back (booleans: true; arithmetic: at least two operands); distinct by (function, arguments, call form)",
-                       [describe(c, o) for c, o in list(zip(cases, outs))[:6]],
+                       [describe(c, o) for c, o in list(zip(cases, outs))[:6]] or ([describe(c, o) for c, o in list(zip(hist_cases or [], hres["after"] if hres else []))[:6]]),
                        extra={"function_histogram": hist, "input_features": feat, "model_mismatches": len(bad), "oracle_failures": len(fails),
+                              "history_stream": ({"sample": len(hres["before"]), "evaluated_twice_through_FuncMap_and_embedded_template": True,
+                                                 "file_templates_created_with_template_New": 2, "driver_log": hres["log"][:6], "differences": len(hdiffs)} if hres else None),
                               "modelled_functions": sorted(FN), "not_modelled_functions": UNMODELLED, "unicode_table_rows": len(utab),
                               "traces_validated_against_impl": sum(1 for c in cases if c["fn"] in FN) + len(witness)},
-                       assumptions=["driver drv_funcs executes {{ f args }} / {{ last | f args }} with template_funcs.FuncMap through text/template; the environment is cleared and set to a fixed map, files live in a fresh temporary directory",
+                       assumptions=["the model functions are pure (a Gallina function of its arguments, the Unicode table and the environment/file map; C16_call_independent_of_history): that the implementation's process-wide FuncMap behaves the same is checked by the history stream (same sample before and after config-value rendering and file:// templates created with mockery's template.New next to decoy files), not proved",
+                                    "driver drv_funcs executes {{ f args }} / {{ last | f args }} with template_funcs.FuncMap through text/template; the environment is cleared and set to a fixed map, files live in a fresh temporary directory",
                                     "Go's unicode tables are data (dumped per run for the occurring code points), not verified"])
 
 
@@ -820,4 +928,7 @@ def coq_show_ctx(ctx, utab, term):
 def replay(ctx, path):
     d = json.loads(open(path).read())
     cs = [d["case"]] if "case" in d else [e["case"] for e in d.get("examples", [])]
-    check(ctx, only=[from_json(c) for c in cs])
+    if d.get("history"):
+        check(ctx, only=[], hist_cases=[from_json(c) for c in cs])
+    else:
+        check(ctx, only=[from_json(c) for c in cs])
